@@ -111,7 +111,7 @@ def group_submissions(rng, forms, reference_ok):
 
 
 def run_repl(cli, text):
-    p = subprocess.run([cli], input=text.encode(), stdout=subprocess.PIPE, stderr=subprocess.PIPE, timeout=120)
+    p = subprocess.run([cli], input=text.encode(), stdout=subprocess.PIPE, stderr=subprocess.PIPE, timeout=900)
     return p.returncode, p.stdout.decode("utf8", "replace"), p.stderr.decode("utf8", "replace")
 
 
